@@ -8,5 +8,10 @@ else
     "$PY" -m pip install -q --no-index --find-links /opt/veriftools/wheels --target "$HERE/.deps" hypothesis || exit 1
     echo "hypothesis installed into $HERE/.deps"
 fi
+# optional: atheris for the coverage-guided stage of C03 (thorough tier); the checks work without it
+if ! PYTHONPATH="$HERE/.deps" "$PY" -c 'import atheris' 2>/dev/null; then
+    "$PY" -m pip install -q --no-index --find-links /opt/veriftools/wheels --target "$HERE/.deps" atheris >/dev/null 2>&1 \
+        && echo "atheris installed into $HERE/.deps" || echo "atheris not installable here (optional stage will be skipped)"
+fi
 mkdir -p "$HERE/evidence" "$HERE/replays"
 exit 0
